@@ -132,7 +132,7 @@ fn small_history(w: &rustradio::stream::WriteStream<u32>, r: &rustradio::stream:
 /// buffers with known content and re-verify them, "churners" create and drop big ones (also
 /// multiples of 2 MiB).  Every buffer is used by its own thread only, so any disturbance
 /// comes from the mapping set-up / tear-down of *other* buffers.
-/// args: threads rounds seed big(0|1).  Prints one JSON line.
+/// args: threads rounds seed big(0|1) refuse(0|1).  Prints one JSON line.
 fn child_churn(args: &[String]) -> i32 {
     use rustradio::circular_buffer::Buffer;
     use std::sync::Arc;
@@ -140,6 +140,9 @@ fn child_churn(args: &[String]) -> i32 {
     let rounds: usize = args.get(1).and_then(|s| s.parse().ok()).unwrap_or(100);
     let seed: u64 = args.get(2).and_then(|s| s.parse().ok()).unwrap_or(1);
     let big = args.get(3).map(|s| s == "1").unwrap_or(false);
+    // every third thread keeps asking for buffers that must be refused (error paths of the
+    // two-step mapping run concurrently with everybody else's mappings)
+    let refuse = args.get(4).map(|s| s == "1").unwrap_or(false);
     let base = (deleted_mappings(), open_fds());
     fn pat(tag: u64, i: usize) -> u8 {
         (tag.wrapping_mul(0x9E37_79B9).wrapping_add(i as u64 * 131) >> 3) as u8
@@ -213,6 +216,19 @@ fn child_churn(args: &[String]) -> i32 {
             let created = created.clone();
             sc.spawn(move || {
                 let mut r = crate::gens::XRng::new(seed ^ (t as u64 * 7919));
+                if refuse && t % 3 == 2 {
+                    for round in 0..rounds * 4 {
+                        if !fails.lock().unwrap().is_empty() {
+                            break;
+                        }
+                        let size = 4096 * (1 + r.below(64) as usize) + [2048usize, 1, 100, 4095][r.below(4) as usize];
+                        if Buffer::<u8>::new(size).is_ok() {
+                            fails.lock().unwrap().push(format!("accepted-invalid: thread {t} round {round}: Buffer::new({size}) succeeded"));
+                            break;
+                        }
+                    }
+                    return;
+                }
                 let churner = t % 2 == 0;
                 let mut pool: std::collections::VecDeque<(Arc<Buffer<u8>>, u64)> = std::collections::VecDeque::new();
                 for round in 0..rounds {
